@@ -239,6 +239,7 @@ class DatasetWorld(object):
     def expand_marker(self, rng):
         """Called by exec_step when it meets the enumeration marker: queue the rejected assignments for this position."""
         templates = self.feasible_templates()
+        self.count("c13:enum_positions" + ("_all_templates" if self.cfg.get("exhaustive") else "_sampled_templates"))
         if not self.cfg.get("exhaustive"):
             rng2 = rng
             k = min(len(templates), self.cfg.get("sample_per_pos", 6))
